@@ -731,6 +731,10 @@ def main(argv=None):
         small = shrink_case(mod, f['case'], same_kind)
         io = safe_impl(mod, small)
         v = safe_oracle(mod, small, io)
+        if not v:
+            # the failure does not reproduce on the case alone (it depended on state left by earlier cases of
+            # this run): report the failure as observed, with the original case
+            small, io, v = f['case'], f['impl'], dict(f['failure'], reproduces_in_isolation=False)
         payload = {'property': pid, 'tier': tier, 'seed': args.seed, 'kind': 'property-fails-on-implementation',
                    'case': small, 'impl_output': io, 'failure': v,
                    'other_failures': len(new_failures) - 1,
